@@ -222,10 +222,18 @@ ComponentPtr ComponentEntity::takeComponent(const std::string &name, bool search
 bool ComponentEntity::replaceComponent(size_t index, const ComponentPtr &newComponent)
 {
     bool status = false;
+    if (newComponent == nullptr) {
+        return status;
+    }
     auto oldComponent = component(index);
     ParentedEntityPtr parent = nullptr;
     if (oldComponent != nullptr) {
         parent = oldComponent->parent();
+        // The replacement moves here: it leaves its previous owner.
+        auto previousOwner = newComponent->parent();
+        if ((previousOwner != nullptr) && (previousOwner != parent)) {
+            removeComponentFromEntity(previousOwner, newComponent);
+        }
     }
 
     if (removeComponent(index)) {
